@@ -160,6 +160,13 @@ func (s *Server) handleConn(c *Conn) error {
 	for {
 		line, err := c.readLine()
 		if err == nil {
+			if c.isClosed() {
+				// The connection was given up while handling an earlier command
+				// (QUIT, too many errors, panic): commands already buffered
+				// behind it must not be executed.
+				return nil
+			}
+
 			cmd, arg, err := parseCmd(line)
 			if err != nil {
 				c.protocolError(501, EnhancedCode{5, 5, 2}, "Bad command")
